@@ -36,6 +36,10 @@ func c06Scalar(r *hx.Run, words []string, indent string, allowNonK bool) (text s
 	if len(words) < 2 && (strings.Contains(style, "multi") || strings.Contains(style, "blank") || strings.Contains(style, "continuation")) {
 		style = "plain"
 	}
+	if hasHash := strings.Contains(" "+flat, " #"); hasHash && strings.HasPrefix(style, "plain") {
+		// " #" starts a comment in a plain scalar; it is ordinary text in every other style
+		style = hx.Pick(rr, []string{"single", "double", "literal", "folded-strip", "double-multi"})
+	}
 	inK = true
 	block := func(ind string, blankAfter int, trailing bool) string {
 		var sb strings.Builder
@@ -100,8 +104,8 @@ func c06Scalar(r *hx.Run, words []string, indent string, allowNonK bool) (text s
 	return text, style, inK
 }
 
-var c06Exprs = [][]string{{"up"}, {"up", "==", "0"}, {"sum(foo)", "by", "(job)"}, {"rate(http_requests_total[5m])", ">", "10"}, {"foo", "/", "bar", "*", "100"}, {"absent(up)"}}
-var c06Texts = [][]string{{"static"}, {"some", "longer", "text", "here"}, {"value", "is", "{{", "$value", "}}"}, {"a:b", "c#d"}, {"it's", "quoted"}}
+var c06Exprs = [][]string{{"up"}, {"up", "==", "0"}, {"sum(foo)", "by", "(job)"}, {"rate(http_requests_total[5m])", ">", "10"}, {"foo", "/", "bar", "*", "100"}, {"absent(up)"}, {"up", "==", "0", "#", "inline", "promql", "comment"}}
+var c06Texts = [][]string{{"static"}, {"some", "longer", "text", "here"}, {"value", "is", "{{", "$value", "}}"}, {"a:b", "c#d"}, {"it's", "quoted"}, {"Ticket", "#", "{{", "$value", "}}", "open"}, {"page", "#1", "of", "#", "2"}}
 
 func c06Gen(r *hx.Run, allowNonK bool) c06Case {
 	rr := r.Rng
